@@ -14,6 +14,9 @@ PROP = dict(
         obl('C08.ehep.region_test', 'EPV.Props.C08.FindingEHEP',
             ['EPV.C08.ehep_on_line_micro', 'EPV.C08.ehep_on_line_sec', 'EPV.C08.ehep_region_test_not_unit_invariant'],
             ['EHEPOnLine'], D.units_ehep_region, tie=D.tie_ehep_on_line, finding=True),
+        # the region value is an atom of the units theorems: the hand model of the region selection (incl. the width of the
+        # closed-boundary band that _run passes on) is tied to the code, and up-scaled units are tried next to the edges
+        obl('C08.ehep.region_model', None, [], [], D.units_ehep_region_up, tie=D.tie_ehep_region),
         obl('C08.mader.units', 'EPV.Props.C08.Mader', ['EPV.C08.mader_units'], ['MaderRare'], D.units_mader,
             tie=D.tie_mader_rare),
         obl('C08.eppiston.units', 'EPV.Props.C08.EPPiston',
